@@ -65,6 +65,13 @@ func runHist(c HistCase, o *run.Obs, slots int, setup func(w *core.World, m *cor
 				if errors.Is(err, core.ErrSkipped) {
 					continue
 				}
+				// the operated tree itself misbehaved (map semantics, C01's subject); before the case is given up, the check
+				// may still look at what is observable without the model (e.g. the shape of what gets persisted now)
+				if histOnAbort != nil {
+					if e := histOnAbort(w, m); e != nil {
+						return m, fmt.Errorf("[%s] step %d %s (an operation of this history failed: %v): %w", c.Cfg, step, op, firstLine(err), e)
+					}
+				}
 				o.Label("aborted:base-failure")
 				return nil, nil
 			}
@@ -76,6 +83,22 @@ func runHist(c HistCase, o *run.Obs, slots int, setup func(w *core.World, m *cor
 		}
 	}
 	return m, nil
+}
+
+// histOnAbort is set by a check (for the duration of one case) that wants a last look when a history is given up.
+var histOnAbort func(w *core.World, m *core.Machine) error
+
+func firstLine(err error) string {
+	s := err.Error()
+	for i := range s {
+		if s[i] == '\n' {
+			return s[:i]
+		}
+	}
+	if len(s) > 300 {
+		return s[:300]
+	}
+	return s
 }
 
 func labelCfg(o *run.Obs, c core.Config) {
